@@ -46,7 +46,7 @@ ASSUMPTIONS = [
     "CPython 3.12 asyncio FIFO ready queue; one step = one `await asyncio.sleep(0)` of the driver",
     "the 20-line sequential model in this file and the history invariants are the specification",
 ]
-MINIMUMS = {"handoff_while_pending": 100, "cancel_after_handoff": 10, "monitor:model": 1000, "monitor:drain": 1000, "long_backlog_drains": 60, "finished_with_falsy_exception": 200}
+MINIMUMS = {"handoff_while_pending": 100, "cancel_after_handoff": 10, "monitor:model": 1000, "monitor:drain": 1000, "long_backlog_drains": 60, "finished_with_falsy_exception": 200, "bulk_backlogs_drained": 6}
 JOBS = {"quick": 4, "thorough": 16}
 
 OPS = ("E1", "E3", "F", "FX", "C", "R", "X", "S")
@@ -401,12 +401,50 @@ def _cases(tier: str, seed: int, shard: int, nshards: int):  # noqa: ANN202
         yield rng.choice(("settled", "racy")), rng.choice((0, 0, 1, 3)), seq, rng.choice(("int", "int", "exc", "mixed"))
 
 
+BULK = {"quick": (2**16 + 5, 100_003), "thorough": (2**16 + 5, 2**17 + 3, 300_007, 1_000_003)}
+
+
+async def run_bulk(R: Recorder, queue_cls: Any, n: int, via: str) -> None:
+    """a producer far ahead of the consumer: n unique elements buffered before the first receive, then drained"""
+    case = {"bulk": n, "via": via}
+    if via == "constructor":
+        q = queue_cls(*range(n))
+    else:
+        q = queue_cls()
+        if via == "one-enqueue":
+            q.enqueue(*range(n))
+        else:
+            for lo in range(0, n, 1000):
+                q.enqueue(*range(lo, min(lo + 1000, n)))
+    reason = Boom("bulk")
+    q.finish(reason)
+    received: list[int] = []
+    terminal: Any = None
+    try:
+        while len(received) <= n + 2:
+            received.append(await q.__anext__())
+    except BaseException as exc:  # noqa: BLE001
+        terminal = exc
+    first_bad = next((i for i, v in enumerate(received) if v != i), None)
+    ok = len(received) == n and first_bad is None
+    R.case(case, nontrivial=True)
+    R.count("bulk_backlogs_drained")
+    R.count("elements_enqueued", n)
+    R.monitor("drain", ok, where={"mode": "bulk", "kind": "lost" if len(received) < n or first_bad is not None else "extra", "via": via},
+              detail=f"{n} elements buffered ({via}) before the first receive: received {len(received)}, first mismatch at position {first_bad} (got {received[first_bad] if first_bad is not None else None})", case=case)
+    R.monitor("reason-identity", terminal is reason, where={"mode": "bulk", "kind": "wrong-reason"}, detail=f"after the buffer the receive ended with {terminal!r}, the queue was finished with {reason!r}", case=case)
+
+
 def run(R: Recorder, tier: str, seed: int, shard: int, nshards: int) -> None:
     from haiway.utils.queue import AsyncQueue
 
     R.flags["exhaustive_core"] = f"all op sequences of length <= {EXH_LEN[tier]} over {len(OPS)} ops, both modes"
 
     async def main(loop: asyncio.AbstractEventLoop) -> None:
+        for k, n in enumerate(BULK[tier]):
+            for j, via in enumerate(("constructor", "one-enqueue", "chunks")):
+                if (k * 3 + j) % nshards == shard:
+                    await run_bulk(R, AsyncQueue, n, via)
         for mode, initial, seq, elems in _cases(tier, seed, shard, nshards):
             # random sequences: drop inapplicable ops instead of skipping the whole sequence
             r = await run_sequence(AsyncQueue, loop, mode, initial, seq, elems)
@@ -440,6 +478,13 @@ async def run_filtered(queue_cls: Any, loop: asyncio.AbstractEventLoop, mode: st
 
 def replay(R: Recorder, case: dict[str, Any]) -> None:
     from haiway.utils.queue import AsyncQueue
+
+    if "bulk" in case:
+        async def bulk_main(loop: asyncio.AbstractEventLoop) -> None:
+            await run_bulk(R, AsyncQueue, case["bulk"], case["via"])
+
+        run_virtual(bulk_main, max_iterations=10**9)
+        return
 
     async def main(loop: asyncio.AbstractEventLoop) -> None:
         r = await run_filtered(AsyncQueue, loop, case["mode"], case["initial"], tuple(case["seq"]), case.get("elems", "int"))
